@@ -164,3 +164,17 @@ Proof.
     rewrite Hf in H. injection H as _ <-. exists keepB. split; [|discriminate]. rewrite map_map. reflexivity.
   - injection H as _ <-. exists (fun _ => true). split; [reflexivity | intros _ k; reflexivity].
 Qed.
+
+(* ring double bonds: configuration is kept exactly in rings of eight and more atoms (as RDKit does) *)
+Theorem ring_bond_chiral_cutoff : forall sizes, ring_bond_chiral sizes = true <-> (forall x, In x sizes -> 8 <= x).
+Proof.
+  intros sizes. unfold ring_bond_chiral. rewrite negb_true_iff. split.
+  - intros H x Hx. destruct (x <? 8) eqn:E; [|apply Z.ltb_ge in E; exact E].
+    assert (existsb (fun y => y <? 8) sizes = true) by (apply existsb_exists; exists x; auto). congruence.
+  - intros H. destruct (existsb (fun x => x <? 8) sizes) eqn:E; [|reflexivity].
+    apply existsb_exists in E. destruct E as (x & Hx & Hlt). apply Z.ltb_lt in Hlt. specialize (H x Hx). lia.
+Qed.
+
+Example ring_bond_chiral_examples :
+  ring_bond_chiral [8] = true /\ ring_bond_chiral [7] = false /\ ring_bond_chiral [9; 12] = true /\ ring_bond_chiral [10; 6] = false.
+Proof. vm_compute. repeat split; reflexivity. Qed.
